@@ -87,34 +87,89 @@ Definition run_icy_string (bytes : list N) : list Z :=
   | o => [status o]
   end.
 
-(* c10font: test data of harness glyph_data: glyph i = its index in three little-endian bytes, then 0xA5 *)
+(* c10font: test data of harness glyph_data: glyph i = its index in three little-endian bytes, then 0xA5; fonts lower
+   than 3 rows get 1 + i mod 255 as their first byte instead *)
 Definition glyph_bytes (h : nat) (i : N) : list N :=
-  map (fun j => match j with O => i mod 256 | 1%nat => (i / 256) mod 256 | 2%nat => (i / 65536) mod 256 | _ => 165 end)%N (seq 0 h).
+  map (fun j => match j with
+                | O => if (h <? 3)%nat then 1 + i mod 255 else i mod 256
+                | 1%nat => (i / 256) mod 256
+                | 2%nat => (i / 65536) mod 256
+                | _ => 165 end)%N (seq 0 h).
 Definition glyph_data (n : N) (h : nat) : list N := flat_map (glyph_bytes h) (nrange n).
 Definition glyph_index (g : list N) : N :=
   (byte_at g 0 + 256 * byte_at g 1 + 65536 * byte_at g 2)%N.
 
-(* is the char that slot i looks up a key of the loaded glyph map (n glyphs loaded)? *)
-Definition slot_present (conv : N -> option N) (n i : N) : bool :=
-  match conv i with
-  | Some c => (c <? n)%N && match conv_glyphs c with Some c' => (c' =? c)%N | None => false end
-  | None => false
-  end.
-Definition missing (conv : N -> option N) (n len : N) : Z :=
-  Z.of_nat (length (filter (fun i => negb (slot_present conv n i)) (nrange len))).
+Definition u32le (x : N) : list N := [x mod 256; (x / 256) mod 256; (x / 65536) mod 256; (x / 16777216) mod 256]%N.
 
-(* [status; glyph count; keys whose glyph is not the chunk of that index; max key; sum of keys mod 2^31;
-    slots of convert_to_u8_data not equal to the input chunk; same for to_psf2_bytes; chars looked up by the checksum] *)
-Definition run_font (n h len : N) : list Z :=
+(* the PSF2 file harness `font("psf2", n, h, declared)` builds: the header announces `declared` (or n) glyphs, of
+   charsize h when that matches the data and of charsize 0 (and then no data) otherwise *)
+Definition psf2_file (n h : N) (decl : Z) : list N :=
+  let data := glyph_data n (N.to_nat h) in
+  let len := if decl <? 0 then n else Z.to_N decl in
+  let charsize := if (len * h =? N.of_nat (length data))%N then h else 0%N in
+  u32le 0x864ab572 ++ u32le 0 ++ u32le 32 ++ u32le 0 ++ u32le len ++ u32le charsize ++ u32le h ++ u32le 8
+  ++ (if (charsize =? 0)%N then [] else data).
+
+(* mode: 0 psf2, 1 psf1, 2 plain (all through BitFont::from_bytes), 3 create_8 / from_basic *)
+Definition font_case (mode n h : N) (decl : Z) : outcome font_result :=
   let hn := N.to_nat h in
-  match glyphs conv_glyphs hn (glyph_data n hn) with
-  | Done g =>
-    [0; Z.of_nat (length g);
-     if (3 <=? h)%N then Z.of_nat (length (filter (fun kg => negb (glyph_index (snd kg) =? fst kg)%N) g)) else 0;
+  match mode with
+  | 0%N => font_from_bytes conv_glyphs (psf2_file n h decl)
+  | 1%N => font_from_bytes conv_glyphs ([0x36; 0x04; 0; h mod 256]%N ++ glyph_data n hn)
+  | 2%N => font_from_bytes conv_glyphs (glyph_data n hn)
+  | _ => font_create conv_glyphs (h mod 256)%N (glyph_data n hn)
+  end.
+
+(* how many of the (ascending) looked-up chars are keys of the (ascending, as inserted) glyph map *)
+Fixpoint inter_count (ks : list N) : list N -> nat :=
+  match ks with
+  | [] => fun _ => O
+  | k :: ks' =>
+    fix aux (ls : list N) : nat :=
+      match ls with
+      | [] => O
+      | l :: ls' => match (k ?= l)%N with
+                    | Eq => S (inter_count ks' ls')
+                    | Lt => inter_count ks' ls
+                    | Gt => aux ls'
+                    end
+      end
+  end.
+(* slots of a `0..len` output loop whose char is not a key (written as an empty glyph) *)
+Definition missing (conv : N -> option N) (keys : list N) (len : N) : Z :=
+  Z.of_N len - Z.of_nat (inter_count keys (lookup_keys conv len)).
+
+(* [status; length; glyph count; keys whose glyph is not the chunk of that index; max key; sum of keys mod 2^31;
+    slots of convert_to_u8_data not equal to the input chunk; same for to_psf2_bytes; chars looked up by the checksum] *)
+Definition font_obs (h : N) (f : font_result) : list Z :=
+  let g := ft_glyphs f in
+  let keys := map fst g in
+  [0; Z.of_N (ft_length f); Z.of_nat (length g);
+   if (3 <=? h)%N then Z.of_nat (length (filter (fun kg => negb (glyph_index (snd kg) =? fst kg)%N) g)) else 0;
+   fold_left (fun m k => Z.max m (Z.of_N k)) keys (-1);
+   fold_left (fun s k => (s + Z.of_N k) mod 2147483648) keys 0;
+   missing conv_u8data keys (ft_length f); missing conv_psf2 keys (ft_length f);
+   Z.of_nat (length (lookup_keys conv_checksum (ft_length f)))].
+
+Definition run_font (mode n h : N) (decl : Z) : list Z :=
+  match font_case mode n h decl with
+  | Done f => font_obs h f
+  | o => [status o]
+  end.
+
+(* c10fontbytes: arbitrary bytes through from_bytes (h < 0) or create_8 / from_basic with height h:
+   [status; length; glyph count; max key; sum of keys mod 2^31; sum over the glyphs of
+    (key + 1) * (1 + sum_j (j + 1) * byte_j) mod 2^31] *)
+Definition glyph_sum (g : list N) : Z :=
+  fst (fold_left (fun sj b => (fst sj + snd sj * Z.of_N b, snd sj + 1)) g (1, 1)).
+Definition run_font_bytes (h : Z) (data : list N) : list Z :=
+  match (if h <? 0 then font_from_bytes conv_glyphs data else font_create conv_glyphs (Z.to_N h) data) with
+  | Done f =>
+    let g := ft_glyphs f in
+    [0; Z.of_N (ft_length f); Z.of_nat (length g);
      fold_left (fun m kg => Z.max m (Z.of_N (fst kg))) g (-1);
      fold_left (fun s kg => (s + Z.of_N (fst kg)) mod 2147483648) g 0;
-     missing conv_u8data n len; missing conv_psf2 n len;
-     Z.of_nat (length (lookup_keys conv_checksum len))]
+     fold_left (fun s kg => (s + (Z.of_N (fst kg) + 1) * glyph_sum (snd kg)) mod 2147483648) g 0]
   | o => [status o]
   end.
 
